@@ -741,7 +741,7 @@ impl<'layout, 'out> TableWriter<'layout, 'out> {
             self.write_ifunc_relocation::<A>(res)?;
         } else {
             *got_entry = if res.flags.is_address() && self.output_kind.is_relocatable() {
-                self.write_address_relocation::<A>(got_address, res.raw_value)?
+                self.write_address_relocation::<A>(got_address, res.raw_value, true)?
             } else {
                 res.raw_value
             };
@@ -759,7 +759,7 @@ impl<'layout, 'out> TableWriter<'layout, 'out> {
             let got_entry = self.take_next_got_entry()?;
             let plt_address = res.plt_address()?;
             *got_entry = if self.output_kind.is_relocatable() {
-                self.write_address_relocation::<A>(ifunc_got_address, plt_address)?
+                self.write_address_relocation::<A>(ifunc_got_address, plt_address, true)?
             } else {
                 plt_address
             };
@@ -1047,16 +1047,22 @@ impl<'layout, 'out> TableWriter<'layout, 'out> {
         &mut self,
         place: u64,
         relative_address: u64,
+        relr_eligible: bool,
     ) -> Result<u64> {
         debug_assert_bail!(
             self.output_kind.is_relocatable(),
             "write_address_relocation called when output is not relocatable"
         );
         let e = LittleEndian;
-        // Odd offsets mean bitmaps in RELR, so we need to fall back to RELA for them.
+        // Odd offsets mean bitmaps in RELR, so we need to fall back to RELA for them. The choice
+        // has to match the one made when we allocated space, which is why it's made by the caller.
         if let Some(relr_writer) = &mut self.relr_dyn
-            && place.is_multiple_of(2)
+            && relr_eligible
         {
+            debug_assert_bail!(
+                place.is_multiple_of(2),
+                "RELR relocation at odd address 0x{place:x}"
+            );
             let relr = relr_writer
                 .split_off_first_mut()
                 .ok_or_else(|| insufficient_allocation(".relr.dyn"))?;
@@ -2260,6 +2266,7 @@ fn apply_relocations<
             &rel,
             SectionInfo {
                 section_address,
+                alignment: object_section.sh_addralign.get(LittleEndian),
                 is_writable: object_section.is_writable(),
                 section_flags,
                 part_id: object.section_part_id(section_index, &layout.symbol_db.section_part_ids),
@@ -2505,6 +2512,7 @@ fn write_eh_frame_relocations<'data, A: Arch<Platform = Elf>, R: Relocation>(
                     rel,
                     SectionInfo {
                         section_address: output_pos as u64 + table_writer.eh_frame_start_address,
+                        alignment: 1,
                         is_writable: false,
                         section_flags,
                         // .eh_frame relocations never need thunks; use the eh_frame section's
@@ -2606,6 +2614,7 @@ impl<'a, 'data, A: Arch<Platform = Elf>, R: Relocation> Display
 #[derive(Clone, Copy)]
 struct SectionInfo<S: platform::SectionFlags> {
     section_address: u64,
+    alignment: u64,
     is_writable: bool,
     section_flags: S,
     part_id: crate::part_id::PartId,
@@ -3520,7 +3529,9 @@ fn write_absolute_relocation<'data, A: Arch<Platform = Elf>>(
             &layout.merged_strings,
             &layout.merged_string_start_addresses,
         )?;
-        table_writer.write_address_relocation::<A>(place, address)
+        let relr_eligible =
+            elf::relr_eligible(place - section_info.section_address, section_info.alignment);
+        table_writer.write_address_relocation::<A>(place, address, relr_eligible)
     } else {
         resolution.value_with_addend(
             addend,
